@@ -185,4 +185,8 @@ Record cfg_input := {
   i_table : list (bytes * bytes);              (* GETINFO config/names: option name, declared type *)
   i_store : list (bytes * list bytes);         (* Tor's configuration: option -> its values ([] = unset) *)
   i_defaults : option (list (bytes * bytes));  (* GETINFO config/defaults lines; None = not supported *)
+  (* how the attached state is reached: None = TorConfig(protocol);
+     Some l = TorConfig(), then config.<name> = value for each entry of l, then attach_protocol(protocol)
+     (the txtorcon.launch() path).  What must hold afterwards does not depend on it. *)
+  i_pre : option (list (bytes * pyval));
   i_ops : list op }.
